@@ -2121,6 +2121,16 @@ impl World {
                 kp = Some(k);
             }
             K::GceRename | K::SelfUpdate => {}
+            K::UpdateForeignIdentity => {
+                // the identity of another member, or of somebody who is no member at all
+                let t = if target % 2 == 0 {
+                    self.target_identity(m, target, false)
+                } else {
+                    (self.first_spare..self.end_spare).map(|i| self.clients[i].pk_hex()).find(|p| !self.local_members(m).contains(p))
+                };
+                let Some(t) = t else { return };
+                tgt = Some(t);
+            }
         }
         let built = on_mdk!(self.clients[m].mdk(), mm => crate::rogue::build_proposal(mm, &gid, kind, tgt.as_deref(), kp));
         let built = match built {
